@@ -440,6 +440,72 @@ namespace
         }
     };
 
+    // ---------- scripted scheduler user (C18): runs a list of scheduler operations per activation, logs every answer ----------
+    std::string sched_snapshot(const NodeScheduler &sched)
+    {
+        std::string s = "{\"next\":" + std::to_string(to_k(sched.next_scheduled_time()));
+        s += ",\"is\":" + std::string(sched.is_scheduled() ? "1" : "0");
+        s += ",\"isnow\":" + std::string(sched.is_scheduled_now() ? "1" : "0");
+        for (const char *g : {"a", "b"})
+        {
+            s += std::string(",\"h") + g + "\":" + (sched.has_tag(g) ? "1" : "0");
+            s += std::string(",\"t") + g + "\":" + std::to_string(to_k(sched.tag_time(g)));
+            s += std::string(",\"n") + g + "\":" + (sched.tag_is_scheduled_now(g) ? "1" : "0");
+        }
+        s += "}";
+        return s;
+    }
+
+    void run_sched_ops(long id, long k, bool xm, const NodeScheduler &sched, const NodeView &self, DateTime now)
+    {
+        auto &sp   = spec_of(id);
+        auto  acts = split(sp.line.gets("acts", ""), '/');
+        J("sact").i("id", id).i("g", inst_of(self)).i("n", static_cast<long>(self.node_index())).i("t", to_k(now)).i("k", k).i("xm", xm ? 1 : 0).raw("q", sched_snapshot(sched)).emit();
+        if (k >= static_cast<long>(acts.size()) || acts[k] == "-" || acts[k].empty()) { return; }
+        for (auto &optext : split(acts[k], '+'))
+        {
+            auto        f   = split(optext, '.');
+            std::string op  = f.at(0);
+            long        dt  = f.size() > 1 ? std::stol(f[1]) : 0;
+            std::string tag = f.size() > 2 ? f[2] : "";
+            long        ret = 0;
+            if (op == "sch")
+            {
+                if (tag.empty()) { sched.schedule(now + MIN_TD * dt); }
+                else { sched.schedule(now + MIN_TD * dt, tag); }
+            }
+            else if (op == "schd")   // the TimeDelta overload
+            {
+                if (tag.empty()) { sched.schedule(MIN_TD * dt); }
+                else { sched.schedule(MIN_TD * dt, tag); }
+                op = "sch";
+            }
+            else if (op == "uns") { sched.un_schedule(tag); }
+            else if (op == "unse") { sched.un_schedule(); }
+            else if (op == "pop") { ret = to_k(sched.pop_tag(tag)); }
+            else if (op == "reset") { sched.reset(); }
+            else { throw std::logic_error("hgv: unknown scheduler op " + op); }
+            J("sop").i("id", id).i("t", to_k(now)).str("op", op).i("dt", dt).str("tag", tag).i("ret", ret).raw("q", sched_snapshot(sched)).emit();
+        }
+    }
+
+    struct VSched
+    {
+        static constexpr auto name = "v_sched";
+        static void           start(Scalar<"id", Int> id, NodeScheduler sched, State<Int> k, NodeView self, DateTime now)
+        {
+            k.set(Int{0});
+            run_sched_ops(id.value(), 0, false, sched, self, now);
+        }
+        static void eval(Scalar<"id", Int> id, In<"x", TS<Int>, InputValidity::Unchecked> x, NodeScheduler sched, State<Int> k, NodeView self,
+                         DateTime now)
+        {
+            const Int kk = k.get() + 1;
+            k.set(kk);
+            run_sched_ops(id.value(), kk, x.modified(), sched, self, now);
+        }
+    };
+
     using TryIntResult = UnNamedTSB<Field<"exception", TS<NodeError>>, Field<"out", TS<Int>>>;
 
     struct VTryOut
@@ -597,6 +663,7 @@ namespace
             else if (kind == "timer") { env.ports.emplace(id, wire<VTimer>(w, sid, Int{l.geti("p", 1)}, Int{l.geti("cnt", 1)})); }
             else if (kind == "throwneg") { env.ports.emplace(id, wire<VThrowNeg>(w, sid, in.at(0))); }
             else if (kind == "rec") { wire<VRec>(w, sid, in.at(0)); }
+            else if (kind == "sched") { wire<VSched>(w, sid, in.at(0)); }
             else if (kind == "lsrc") { env.ports.emplace(id, wire<LSrc>(w, sid, Int{l.geti("cnt", 2)})); }
             else if (kind == "lpass") { env.ports.emplace(id, wire<LPass>(w, sid, in.at(0))); }
             else if (kind == "lsink") { wire<LSink>(w, sid, in.at(0)); }
